@@ -220,6 +220,8 @@ def run_impl(case):
             unchanged.append(mgr_state(sm) == before)
     obs = {"mem0": mem0, "mmap_ok": mmap_ok, "newmem": mem_nodes(pb.memory[2 + len(mem0):]), "status": status,
            "norms": norms, "refused_unchanged": unchanged}
+    obs["mmap_ok"] = mmap_ok and len(pb.mmap) == len(pb.memory) - 2 and \
+        all(pb.mmap.get(n) == i + 2 for i, n in enumerate(pb.memory[2:]))
     obs.update({k: v for k, v in mgr_state(sm).items() if k not in ("ttable", "memlen", "nclauses")})
     obs["clauses_after"] = last
     obs["history_codified"] = len(hm.codified)
@@ -346,7 +348,7 @@ def oracle(case, obs):
     if not all(obs["refused_unchanged"]):
         return "refused: a refused constraint changed the manager or the diagram store"
     if not obs["mmap_ok"]:
-        return "store: mmap and memory disagree after the earlier history"
+        return "store: mmap and memory disagree (a node is stored twice or under another index)"
     users = obs["users"]
     accepted = [p for p, s in zip(posts, obs["status"]) if s == "A"]
     anysat = False
@@ -468,7 +470,7 @@ def dist_key(case):
 
 
 def run(ctx, out, replay=None):
-    n = 3000 if ctx.quick() else 40000
+    n = 5000 if ctx.quick() else 40000
     out.rule = ("random posting sequences (1-6 posts: clauses, implications, at-most-one groups of 0..12 literals "
                 "pairwise and chained with k 3..6 (and refused k), inequalities with up to 8+2 literals, coefficients "
                 "-9..9 incl. 0, repeated variables, both polarities, six operator spellings, both constructions) over "
